@@ -140,3 +140,65 @@ Theorem C19_no_placeholder_expansion_expl : forall b c i, exists R : res frame, 
   rmap (fun q => fill q (plug b (esc_apply (b_esc b) x))) R.
 Proof. exact no_placeholder_expansion_expl. Qed.
 Print Assumptions C19_no_placeholder_expansion_expl.
+
+(* ---- frame statements for the remaining supplied values: for every branch, class, class or
+   custom template and all other values there is ONE frame (or one error) such that, for every
+   text x, the page is that frame with the escaped x plugged in.  Together with the detail and
+   explanation statements above this covers every request-derived value. *)
+Theorem C19_frame_comment : forall b c i, b_comment_escaped b = true ->
+  exists R : res frame, forall x, x <> [] ->
+    page_text spec_policy b c (with_comment i (Some x)) =
+    rmap (fun q => fill q (plug b (esc_apply (b_esc b) x))) R.
+Proof. exact frame_comment. Qed.
+Print Assumptions C19_frame_comment.
+
+Theorem C19_frame_location : forall b c i,
+  exists R : res frame, forall x,
+    page_text spec_policy b c (with_location i x) =
+    rmap (fun q => fill q (plug b (esc_apply (b_esc b) x))) R.
+Proof. exact frame_location. Qed.
+Print Assumptions C19_frame_location.
+
+Theorem C19_frame_header : forall b c i l1 k l2,
+  exists R : res frame, forall x,
+    page_text spec_policy b c (with_headers i (l1 ++ (k, x) :: l2)) =
+    rmap (fun q => fill q (plug b (esc_apply (b_esc b) x))) R.
+Proof. exact frame_header. Qed.
+Print Assumptions C19_frame_header.
+
+Theorem C19_frame_environ : forall b c i l1 k l2,
+  exists R : res frame, forall x,
+    page_text spec_policy b c (with_environ i (l1 ++ (k, x) :: l2)) =
+    rmap (fun q => fill q (plug b (esc_apply (b_esc b) x))) R.
+Proof. exact frame_environ. Qed.
+Print Assumptions C19_frame_environ.
+
+(* ---- explicit HTML responses of the classes with their own body template *)
+(* redirect classes (every class taking location=): no extra response header and no unskipped
+   environ key named explanation / location / detail / html_comment *)
+Theorem C19_html_move_shape : forall i c,
+  find_cls (i_cls i) classes = Some c -> c_empty c = false -> c_move c = true -> i_tmpl i = None ->
+  chosen_type i = t_html -> hdr_clear move_keys (i_headers i) -> env_clear move_keys (i_environ i) ->
+  spec i = Some (rmap (mkOutput (status_of c) t_html cs_utf8)
+    (utf8_bytes (H1 ++ status_of c ++ H2 ++ status_of c ++ H3 ++
+       (html_escape (expl_of c i) ++ [32] ++ html_escape (i_location i) ++ M1 ++
+        html_escape (or_empty (i_detail i)) ++ [10] ++ html_comment_of bh i) ++ H4))).
+Proof. exact html_move_response. Qed.
+Print Assumptions C19_html_move_shape.
+
+(* 405: the request method comes from the environ and is escaped *)
+Theorem C19_html_405_shape : forall i e1 m e2,
+  i_cls i = n_405 -> i_tmpl i = None -> chosen_type i = t_html ->
+  i_environ i = e1 ++ (k_request_method, m) :: e2 -> env_clear [k_request_method] e2 ->
+  hdr_clear [s_k_br; s_k_detail] (i_headers i) -> env_clear [s_k_br; s_k_detail] (i_environ i) ->
+  exists st, spec i = Some (rmap (mkOutput st t_html cs_utf8)
+    (utf8_bytes (H1 ++ st ++ H2 ++ st ++ H3 ++
+       (MNA1 ++ html_escape m ++ MNA2 ++ s_br_html ++ s_br_html ++ [10] ++ html_escape (or_empty (i_detail i))) ++ H4))).
+Proof. exact html_405_response. Qed.
+Print Assumptions C19_html_405_shape.
+
+(* json.dumps of any non-empty object of string members reads back exactly *)
+Theorem C19_json_roundtrip_any : forall kvs,
+  kvs <> [] -> forallb kv_valid kvs = true -> json_read_object (json_object kvs) = Some kvs.
+Proof. exact json_object_roundtrip. Qed.
+Print Assumptions C19_json_roundtrip_any.
